@@ -179,6 +179,10 @@ impl NumericParser {
 
     pub fn done(&mut self) -> bool {
         let ret = self.subtotal.add(&mut self.tmp) && self.total.add(&mut self.subtotal);
+        if !ret {
+            // the sum itself is malformed: a trailing separator must not make the caller join the part in front of it
+            return false;
+        }
         if self.has_hanging_point {
             self.error_state = Error::POINT;
             return false;
